@@ -255,6 +255,7 @@ def gen(seed, idx, tier, ctx):
     return {'check': CHECK, 'seed': seed, 'idx': idx, 'state': state,
             're_cold': state == 'fresh' and rng.random() < 0.15,
             'calls': calls, 'hstar': hstar, 'mode': mode,
+            'full': top <= SWEEP, 'top': top,
             'followups': [{'api': a, 'inp': {'t': 'str', 'v': t}, 'opts': o}
                           for a, t, o in fu],
             'timeout': 300.0}
@@ -458,6 +459,10 @@ def run(spec, refs):
         sqlparse.parse('select 1')
         sqlparse.format('select a from b', reindent=True)
     stat('state_' + spec['state'])
+    if spec.get('full'):
+        stat('runs_of_cases_whose_whole_headroom_range_is_enumerated')
+    elif spec.get('mode') == 'dense':
+        stat('runs_of_cases_with_a_contiguous_64_value_window')
     if spec.get('hstar') == -1:
         stat('threshold_probe_failed')
     deep = spec.get('deep')
@@ -785,6 +790,13 @@ def evidence(tier, seed, agg, meta):
     mechs = sorted(k[5:] for k in agg.stats if k.startswith('mech_'))
     return evid.build(CHECK, tier, seed, LEVEL, agg, meta, RULE, SITE_PROBES,
                       COMPONENTS, ASSUMPTIONS,
-                      {'distinct_overflow_sites': len(sites),
+                      {'cases': agg.n // SWEEP,
+                       'cases_with_every_headroom_value_enumerated':
+                       agg.stats.get('runs_of_cases_whose_whole_headroom_'
+                                     'range_is_enumerated', 0) // SWEEP,
+                       'cases_with_a_contiguous_64_value_window':
+                       agg.stats.get('runs_of_cases_with_a_contiguous_64_'
+                                     'value_window', 0) // SWEEP,
+                       'distinct_overflow_sites': len(sites),
                        'overflow_sites': sites,
                        'recursive_mechanisms_overflowed': mechs})
